@@ -38,6 +38,7 @@
 
 ''' This module provides the loop swap transformation.'''
 
+from psyclone.core import VariablesAccessInfo
 from psyclone.psyir.nodes import Call, CodeBlock, Reference
 from psyclone.psyir.transformations.loop_trans import LoopTrans
 from psyclone.psyir.transformations.transformation_error import \
@@ -98,6 +99,8 @@ class LoopSwapTrans(LoopTrans):
                                      allow a loop swap to be done.
         :raises TransformationError: if either the inner or outer loop \
                                      has a symbol table.
+        :raises TransformationError: if a boundary expression of one of \
+            the loops reads a variable that is written inside the loop nest.
 
         '''
         super().validate(node, options=options)
@@ -171,6 +174,24 @@ class LoopSwapTrans(LoopTrans):
                     f"iteration variable '{node_outer.variable.name}' is part "
                     f"of the inner loop boundary expressions, so their order "
                     f"can not be swapped.")
+
+        # The boundary expressions of both loops must be invariant within
+        # the loop nest: after the swap they are evaluated at a different
+        # point of the iteration space.
+        body_accesses = VariablesAccessInfo(node_inner.loop_body)
+        for loop in (node_outer, node_inner):
+            bound_accesses = VariablesAccessInfo()
+            for boundary in (loop.start_expr, loop.stop_expr,
+                             loop.step_expr):
+                boundary.reference_accesses(bound_accesses)
+            for sig in bound_accesses.all_signatures:
+                if sig in body_accesses and body_accesses[sig].is_written():
+                    raise TransformationError(
+                        f"Error in LoopSwap transformation: The variable "
+                        f"'{sig}' is part of the boundary expressions of the "
+                        f"loop over '{loop.variable.name}' and is written "
+                        f"inside the loop nest, so the order of the loops "
+                        f"can not be swapped.")
 
     def apply(self, node, options=None):
         # pylint: disable=arguments-differ
